@@ -43,6 +43,7 @@ package gem
 
 //@ func (*Ecosystem).NewVersion
 //@   ensures text: result1 == nil ==> result0.original == arg1 || result0.original == strings.TrimSpace(arg1)   [C18]
+//@   ensures segments: result1 == nil ==> result0.segments == parseSegments(canonicalizeVersion(strings.TrimPrefix(strings.TrimSpace(arg1), "v"))).0   [C13]
 //@   ensures xor: (result0 != nil) == (result1 == nil)
 
 //@ func (*Ecosystem).NewVersionRange
@@ -177,3 +178,12 @@ package gem
 //@   ensures pre-parts: forall j int :: gPre(version) != "" && 0 <= j && j < len(gPP(version)) && gPP(version)[j] != "" && gNzB(gM(version) + 1, gPP(version), j) < len(result0) ==> result0[gNzB(gM(version) + 1, gPP(version), j)] == createSegment(gPP(version)[j])   [C13] using main,pre
 //@   ensures build-parts: forall j int :: gBuild(version) != "" && 0 <= j && j < len(gBP(version)) && gBP(version)[j] != "" && gNzB(gB(version), gBP(version), j) < len(result0) ==> result0[gNzB(gB(version), gBP(version), j)] == createSegment(gBP(version)[j])   [C13] using main,pre,build
 //@   ensures nothing-else: len(result0) <= gTotal(version) && result1 == nil   [C13] using main,pre,build
+
+// ---- round 20: canonicalizeVersion.  The text is split at '-' and '+' (strings.FieldsFunc with the function's first
+// literal; library semantics assumed); the first field and every later one go through addDotsBetweenNumericAndAlpha, and a
+// later field is joined with '-' when the text contains "-<field>" and with '+' otherwise.
+//@ spec gCanon(version string, parts []string, k int) string = k <= 1 ? addDotsBetweenNumericAndAlpha(parts[0]) : gCanon(version, parts, k - 1) + (strings.Contains(version, "-" + parts[k - 1]) ? "-" : "+") + addDotsBetweenNumericAndAlpha(parts[k - 1])
+//@ func canonicalizeVersion
+//@   loop 1 invariant canon: 1 <= i && i <= len(parts) && result == gCanon(version, parts, i)   [C13]
+//@   ensures no-fields: len(strings.FieldsFunc(version, anon(1))) == 0 ==> result == version   [C13] using local
+//@   ensures joined: len(strings.FieldsFunc(version, anon(1))) > 0 ==> result == gCanon(version, strings.FieldsFunc(version, anon(1)), len(strings.FieldsFunc(version, anon(1))))   [C13] using canon
